@@ -16,7 +16,7 @@ Definition inner_exc : N := 77.                  (* what an already rejected ret
 
 Inductive kind :=
 | KVal (dst : nat)              (* callback returns a value: settles the derived promise dst *)
-| KVoid (dst : nat)             (* callback returns nothing: dst is never fulfilled (only a rethrown rejection settles it) *)
+| KVoid (dst : nat)             (* callback returns nothing: the derived Promise<void> dst is fulfilled (no value) when it has run *)
 | KAll (d : nat) (idx : nat)    (* the continuation whenAll attaches to input idx *)
 | KAny (d : nat)                (* the continuation whenAny attaches to an input *)
 | KProm (dst inner : nat) (m : pmode)   (* callback returns a promise (core inner): pending, already fulfilled or
@@ -92,7 +92,7 @@ Definition run_task (s : pst) (t : task) : pst :=
         let s1 := set_cont s k (mkC (ck c) (ch c) (S (rc c)) (jc c)) in
         match ck c with
         | KVal dst => settle (add_log s1 (ERes k v)) dst (Fulfilled (f_apply v))
-        | KVoid _ => add_log s1 (ERes k v)
+        | KVoid dst => settle (add_log s1 (ERes k v)) dst (Fulfilled [])
         | KAll d idx =>
             let w := data_at s1 d in
             if wdone w then s1
